@@ -160,3 +160,26 @@ Theorem pool_inv_run steps : forall w, pool_inv w -> pool_inv (pool_run steps w)
 Proof.
   induction steps as [|s steps IH]; intros w H; [exact H|]. cbn [pool_run fold_left]. apply IH. apply pool_inv_step. exact H.
 Qed.
+
+(** a render hands something to its destination only through its own successful finish *)
+Definition finishes_ok (r : rid) (s : pstep) : bool := match s with PFinish k true => Nat.eqb k r | _ => false end.
+
+Lemma written_only_by_finish r s w x :
+  In (r, x) (w_written (pool_step w s)) -> In (r, x) (w_written w) \/ finishes_ok r s = true.
+Proof.
+  destruct s as [k c|k y|k ok]; cbn [pool_step finishes_ok].
+  - destruct (owned_get k (w_owned w)); [auto|]. destruct c as [n|]; [destruct (take_nth n (w_pool w)) as [[b rest]|]|]; cbn; auto.
+  - destruct (owned_get k (w_owned w)); cbn; auto.
+  - destruct (owned_get k (w_owned w)) as [b|]; [|auto]. destruct ok; cbn [w_written]; [|auto].
+    intros [H|H]; [injection H as <- _; right; apply Nat.eqb_refl|left; exact H].
+Qed.
+
+Theorem nothing_without_finish r steps : forall w,
+  (forall x, ~ In (r, x) (w_written w)) -> existsb (finishes_ok r) steps = false ->
+  forall x, ~ In (r, x) (w_written (pool_run steps w)).
+Proof.
+  induction steps as [|s steps IH]; intros w H0 Hf x; [apply H0|].
+  cbn [existsb] in Hf. apply Bool.orb_false_iff in Hf as [Hs Hrest]. cbn [pool_run fold_left].
+  apply (IH (pool_step w s)); [|exact Hrest].
+  intros y Hy. destruct (written_only_by_finish r s w y Hy) as [H|H]; [exact (H0 y H)|congruence].
+Qed.
